@@ -122,3 +122,71 @@ func builtinFaithful(dir, name string, width int, mk func() []*log.Event) []buil
 func (m builtinMismatch) String() string {
 	return fmt.Sprintf("%s with %s, event %d: the sink holds %q where the layout produces %q", m.Sink, m.Layout, m.Index, m.Got, m.Want)
 }
+
+// builtinFanout: ONE synchronous logger in front of several built-in file appenders whose layouts differ in kind and in
+// file:line width (three text layouts, one JSON layout): every file holds, event by event, what a layout of ITS kind and ITS
+// width produces - whatever the logger shares between its appenders when it hands an event to them.
+func builtinFanout(dir, name string, widths []int, mk func() []*log.Event) []builtinMismatch {
+	var out []builtinMismatch
+	fdir := filepath.Join(dir, name+".fan")
+	_ = os.RemoveAll(fdir)
+	_ = os.MkdirAll(fdir, 0o755)
+	defer os.RemoveAll(fdir)
+	type sink struct {
+		kind  string
+		width int
+		file  string
+		ap    *log.FileAppender
+	}
+	mkLayout := func(kind string, width int) log.Layout {
+		if kind == "JSONLayout" {
+			return &log.JSONLayout{BaseLayout: log.BaseLayout{FileLineLength: width}}
+		}
+		return &log.TextLayout{BaseLayout: log.BaseLayout{FileLineLength: width}}
+	}
+	var sinks []*sink
+	for k, wd := range widths {
+		sinks = append(sinks, &sink{kind: "TextLayout", width: wd, file: fmt.Sprintf("t%d.log", k)})
+	}
+	sinks = append(sinks, &sink{kind: "JSONLayout", width: widths[0], file: "j.log"})
+	all := log.LevelRange{MinLevel: log.NoneLevel, MaxLevel: log.MaxLevel}
+	var refs []*log.AppenderRef
+	for _, s := range sinks {
+		s.ap = &log.FileAppender{AppenderBase: log.AppenderBase{Name: s.file}, Layout: mkLayout(s.kind, s.width), FileDir: fdir, FileName: s.file}
+		if s.ap.Start() != nil {
+			return nil
+		}
+		refs = append(refs, &log.AppenderRef{Appender: s.ap, Ref: s.file, Level: all})
+	}
+	lg := &log.SyncLogger{LoggerBase: log.LoggerBase{Name: "fan", Level: all}, AppenderRefs: log.AppenderRefs{AppenderRefs: refs}}
+	if lg.Start() != nil {
+		return nil
+	}
+	for _, e := range mk() {
+		lg.Append(e)
+	}
+	lg.Stop()
+	for _, s := range sinks {
+		s.ap.Stop()
+		got, _ := os.ReadFile(filepath.Join(fdir, s.file))
+		ref := mkLayout(s.kind, s.width)
+		off := 0
+		for i, e := range mk() {
+			wl := ref.ToBytes(e)
+			if off+len(wl) > len(got) || !bytes.Equal(got[off:off+len(wl)], wl) {
+				end := off + len(wl) + 40
+				if end > len(got) {
+					end = len(got)
+				}
+				st := off
+				if st > len(got) {
+					st = len(got)
+				}
+				out = append(out, builtinMismatch{Sink: fmt.Sprintf("file appender %s of a logger with %d appenders (widths %v + JSON)", s.file, len(sinks), widths), Layout: fmt.Sprintf("%s(width %d)", s.kind, s.width), Index: i, Got: trunc(string(got[st:end]), 500), Want: trunc(string(wl), 500)})
+				break
+			}
+			off += len(wl)
+		}
+	}
+	return out
+}
